@@ -12,7 +12,7 @@ COQ_DEPS = ["Common/ListX.v", "Common/ObsHash.v", "Generated/Tables.v", "Model/R
 COQ_IMPORTS = "From Mesa Require Import Model.Registry."
 COQ_CASE_TYPE = "case"
 COQ_RUN = "run_case"
-TABLE_CONSTRUCTS = ["agent_first_id", "deregister_order", "register_order", "remove_suppresses_keyerror"]
+TABLE_CONSTRUCTS = ["agent_first_id", "deregister_order", "register_order", "remove_suppresses_keyerror", "registry_skeleton"]
 RULE = ("histories = 1-3 coexisting models (more via new_model) + 4-40 ops out of: constructor call, create_agents "
         "(scalar / list / tuple / ndarray / str argument, positional or keyword, length = n and != n, n in -1..4), "
         "agent.remove (also of removed agents), model.deregister_agent, remove_all_agents, in-place shuffle/sort of "
